@@ -268,7 +268,20 @@ def discharge(vc, tier="quick", want_model=None):
             discharge_cvc5(vc, 40 if tier == "quick" else 120)
         except Exception as e:  # cvc5 cannot parse something: stay unknown
             vc.reason = f"cvc5: {e}"
-    elif vc.verdict == "unsat" and tier == "thorough" and os.environ.get("HGV_CROSS", "1") == "1":
+    if vc.verdict == "unknown":
+        # a wall-clock time-out on a loaded machine must not flip a verdict: once more, with three times the budget
+        # and another seed
+        first_reason = vc.reason
+        z3.set_param("smt.random_seed", 7)
+        try:
+            discharge_z3(vc, 3 * tz, want_model)
+        finally:
+            z3.set_param("smt.random_seed", 0)
+        if vc.verdict == "unknown":
+            vc.reason = f"{first_reason}; retry: {vc.reason}"
+        else:
+            vc.backend = (vc.backend or "") + " (retry after unknown)"
+    if vc.verdict == "unsat" and tier == "thorough" and os.environ.get("HGV_CROSS", "1") == "1":
         cross_check(vc)
     return vc
 
